@@ -136,6 +136,9 @@ CHECKS = {
     "C40": ("mc-store", E1, "exhaustive differential enumeration (E1) of program vs SDK on identical account bytes",
             "Sizes of every zero-copy account declared for the SDK; every model accessor of the program Market vs the SDK MarketModel over a family of market contents (all keys populated, closed x closed-params x every flag, all pools populated, pure market); swaps and fee-state updates on a real RevertibleMarket vs the SDK model under the same stubbed time; real deposit/withdrawal instructions vs the SDK simulation (amounts and resulting views).",
             "position increase/decrease differential not covered; discount comparison is C31", "§5 C40"),
+    "C44": ("mc-store", E1, "exhaustive enumeration (E1) of swap paths executed through real deposit instructions in the in-process runtime",
+            "Every sequence of 0..3 markets out of four over three tokens (duplicates, non-chaining paths and paths through the deposit market included) x initial token x amounts as the swap path of a real create_deposit + execute_deposit: creation accepts exactly the duplicate-free chaining paths ending in the market's long token; after completion recorded balances and vaults move together, markets outside the path are untouched and every hop moved exactly the amounts of the C40-validated SDK swap in order; stored paths tampered to hold a duplicate never complete.",
+            "paths of length 4-10, short-side paths, withdrawals and orders (same SwapMarkets code) are not enumerated", "§5 C44"),
 }
 
 NOT_YET = "no check built yet in this round (planned in DESIGN.md); not claimed"
